@@ -790,7 +790,13 @@ fn nat_message() -> Message {
         3 => MessageBody::Request(Request::AnnouncePeer(AnnouncePeerRequest {
             id: any_id(),
             info_hash: any_id(),
-            port: if kani::any::<bool>() { Some(kani::any::<u16>()) } else { None },
+            port: match kani::any::<u8>() % 5 {
+                0 => None,
+                1 => Some(0), // boundary values are drawn often, not with probability 2^-16
+                2 => Some(65535),
+                3 => Some(1),
+                _ => Some(kani::any::<u16>()),
+            },
             token: nat_bytes((kani::any::<u8>() % 24) as usize),
         })),
         4 | 5 => {
